@@ -1,30 +1,63 @@
 /-
 Line-protocol driver for the load path of C06 (temp-dir life cycle of image.FromV1Image).
-request : load <nlayers> <fail|-> <kind> <pos>            (harness/cmd/c06load/main.go)
+request : load <nlayers> <fail|-> <kind> <pos>                        (harness/cmd/c06load/main.go; = load2 L^n … 0 0)
+          load2 <hist> <fail|-> <kind> <pos> <decoys> <seed>
+          run <pre><mktemp><root> <layer outcomes> <decoys>            (model only: every exit of the loader, also those no
+                                                                        input reaches: `root`, `haveLayer`)
+            layer outcomes: newest chain layer first, `,`-separated, five 0/1 digits each: empty mkdir haveLayer opened filled; `-` = none
 reply   : err=<0|1> left=<directories in TMPDIR after the load> img=<0|1> clean=<directories in TMPDIR after CleanUp>
-The kinds c t h l n make `fillChainLayersWithFilesFromTar` fail for layer <fail>; v fails before any directory exists;
-b o u d - load fine.
+          others=<1 iff the directories that were in TMPDIR before are all there, unchanged, at the end>
+hist: one letter per chain layer, oldest first; L = layer with an archive, E = empty-layer history entry.
+kinds: c t h l n make `fillChainLayersWithFilesFromTar` fail for layer <fail>; e makes its `Uncompressed()` fail; p makes
+`os.Mkdir` of the first layer directory fail; m makes `os.MkdirTemp` fail; v (config) and y (`Layers()`) fail before any
+directory exists; b o u d - load fine.  TMPDIR starts with <decoys> directories (names 100, 101, each holding a layer
+directory); `os.MkdirTemp` picks the name 1.
 -/
 import Scalibr.Base.Wire
 import Scalibr.Model.ImageLife
 open Scalibr Scalibr.Wire Scalibr.ImageLife
 
+def decoyDirs (k : Nat) : Tmp := (List.range k).map fun i => ⟨100 + i, [0]⟩
+
+def report (tmp0 : Tmp) (r : Run) : String :=
+  let (res, tmp) := fromV1Image tmp0 1 r
+  let after := match res with | some d => cleanUp tmp d | none => tmp
+  let others := decide (after = tmp0) && decide (removeAll tmp 1 = tmp0)
+  s!"err={boolStr res.isNone} left={tmp.length} img={boolStr res.isSome} clean={after.length} others={boolStr others}"
+
+def bit (c : Char) : Option Bool := if c = '1' then some true else if c = '0' then some false else none
+
+def parseLayerRun (s : String) : Option LayerRun :=
+  match s.toList.mapM bit with
+  | some [e, m, h, o, f] => some ⟨e, m, h, o, f⟩
+  | _ => none
+
 def handle (line : String) : String :=
-  match line.splitOn " " with
-  | ["load", nl, fail, kind, _pos] =>
-    match nl.toNat?, kind.toList with
-    | some nl, [k] =>
+  let go (hist : List Char) (fail kind decoys : String) : String :=
+    match kind.toList, decoys.toNat? with
+    | [k], some dc =>
       let failIdx : Option Nat := if fail = "-" then none else fail.toNat?
       if fail != "-" && failIdx.isNone then "bad-op" else
+      if !(hist.all fun c => c = 'L' || c = 'E') then "bad-op" else
       let fatal := k = 'c' || k = 't' || k = 'h' || k = 'l' || k = 'n'
+      let nl := hist.length
+      -- the newest chain layer with an archive: the first whose directory is made
+      let newest : Option Nat := ((List.range nl).reverse.find? fun i => hist.getD i 'E' = 'L')
       -- chain layers newest first: index nl-1 … 0
       let layers : List LayerRun := (List.range nl).reverse.map fun i =>
-        ⟨false, true, true, true, !(fatal && failIdx == some i)⟩
-      let r : Run := ⟨k != 'v', true, true, layers⟩
-      let (res, tmp) := fromV1Image [] 1 r
-      let after := match res with | some d => cleanUp tmp d | none => tmp
-      s!"err={boolStr res.isNone} left={tmp.length} img={boolStr res.isSome} clean={after.length}"
+        ⟨hist.getD i 'E' = 'E', !(k = 'p' && newest == some i), true, !(k = 'e' && failIdx == some i), !(fatal && failIdx == some i)⟩
+      report (decoyDirs dc) ⟨k != 'v' && k != 'y', k != 'm', true, layers⟩
     | _, _ => "bad-op"
+  match line.splitOn " " with
+  | ["load", nl, fail, kind, _pos] =>
+    match nl.toNat? with
+    | some n => go (List.replicate n 'L') fail kind "0"
+    | none => "bad-op"
+  | ["load2", hist, fail, kind, _pos, decoys, _seed] => go hist.toList fail kind decoys
+  | ["run", flags, ls, decoys] =>
+    match flags.toList.mapM bit, (if ls = "-" then some [] else (ls.splitOn ",").mapM parseLayerRun), decoys.toNat? with
+    | some [p, m, r], some layers, some dc => report (decoyDirs dc) ⟨p, m, r, layers⟩
+    | _, _, _ => "bad-op"
   | _ => "bad-op"
 
 def main : IO Unit := serve handle
